@@ -13,7 +13,7 @@ only at *yield points*:
     file-level atomicity unit (one write call) a yield point regardless of how the source lines are laid out.
 A schedule is the list of thread ids chosen at each point where more than one thread is schedulable.  Schedules are
 enumerated by iterative context bounding (all schedules with 0, 1, 2, (3) preemptions; breadth first; preemptions
-that provably only make the preempting thread block on a held lock are skipped), capped per program, plus
+that only make the preempting thread run <=2 source lines and then block on a lock somebody else holds are skipped), capped per program, plus
 seeded random walks.  A failure's "scenario" holds the program and the realised choice list and replays exactly.
 
 Two scenario families:
@@ -383,7 +383,7 @@ class Registry(object):
     """All messages of one mem scenario: originals, serializers, identity maps, expected contents."""
 
     def __init__(self, pre, threads):
-        self.kind = {}; self.dicts = {}; self.sers = {}; self.excs = {}; self.byid = {}; self.byexc = {}
+        self.kind = {}; self.dicts = {}; self.sers = {}; self.excs = {}; self.byid = {}; self.byexc = {}; self.orig = {}
         self.opmid = {}         # (where, k) -> mid ; where = "pre" or thread index
         mid = 0
         for where, ops in [("pre", pre)] + list(enumerate(threads)):
@@ -418,7 +418,6 @@ class Registry(object):
         self.dicts[mid] = d; self.sers[mid] = ser
         if d is not None:
             self.byid[id(d)] = mid
-        self.orig = getattr(self, "orig", {})
         self.orig[mid] = dict(d) if d is not None else None
 
     def ident(self, d):
@@ -1139,7 +1138,7 @@ def mem_programs(rng):
         assert mem_well_specified(pre, threads), (pre, threads)
         progs.append(("B", {"fam": "mem", "pre": pre, "threads": threads}))
     # C: seeded random programs, 2..3 threads, 1..3 operations each
-    nrand = 200 if THOROUGH else 30
+    nrand = 320 if THOROUGH else 30
     tries = 0
     while nrand and tries < 10000:
         tries += 1
@@ -1167,7 +1166,7 @@ def file_programs(rng):
         for k, sh in enumerate(logger_shapes):
             if THOROUGH or (FILE_KINDS.index(fk) + k) % 3 == 0:
                 progs.append(("E", {"fam": "file", "file": fk, "mode": "logger", "threads": sh}))
-    nrand = 80 if THOROUGH else 12
+    nrand = 130 if THOROUGH else 12
     for _ in range(nrand):
         mode = rng.choice(["direct", "logger"])
         kinds = ["s", "u", "L", "d", "t", "sh"] + (["sf"] if mode == "logger" else [])
@@ -1214,9 +1213,10 @@ def main():
                 log("note: wall-clock guard hit after %d programs; remaining programs skipped" % stats.programs)
     finally:
         pool_shutdown()
-    pb = 3 if THOROUGH else 2
+    pb = "3" if THOROUGH else "2 (3 for the pairwise and curated mem programs)"
+    guard = time.time() > DEADLINE
     out = {"cases": stats.cases, "distinct": len(stats.seen), "failures": stats.failures[:5], "known": stats.known[:5],
-           "bound": "mem: every pair of operations {write x7 kinds, flush x2, reset, validate, serialize} on a preloaded MemoryLogger, curated 2x2 programs and seeded-random programs of 2-3 threads x <=%d operations; file: 7 file kinds x {direct call, Logger.write} x 2-3 threads x <=%d messages; per program all schedules (switch points = every source line of eliot/_output.py, every lock acquisition, every py-file write/flush) with <=%d preemptions, capped breadth-first per program, plus seeded random walks; %d programs" % (3 if THOROUGH else 2, 3 if THOROUGH else 2, pb, stats.programs),
+           "bound": "mem: every pair of operations {write x7 kinds, flush x2, reset, validate, serialize} on a preloaded MemoryLogger, curated 2x2 programs and seeded-random programs of 2-3 threads x <=%d operations; file: 7 file kinds x {direct call, Logger.write} x 2-3 threads x <=%d messages; per program all schedules (switch points = every source line of eliot/_output.py, every lock acquisition, every py-file write/flush) with <=%s preemptions, capped breadth-first per program, plus seeded random walks; %d programs%s" % (3 if THOROUGH else 2, 3 if THOROUGH else 2, pb, stats.programs, " (wall-clock guard hit: remaining programs skipped)" if guard else ""),
            "rule": "scenario = (program, schedule); schedules enumerated by iterative context bounding from the run-to-completion schedule, skipping preemptions that only make the preempting thread block on a held lock, then seeded random walks; distinct = distinct (program, realised sequence of thread switches with their positions); every scenario has >=2 threads sharing one logger/destination so all are non-trivial"}
     print(json.dumps(out))
 
